@@ -10,6 +10,7 @@ import (
 	"sort"
 	"strings"
 	"sync"
+	"sync/atomic"
 	"time"
 
 	"github.com/klev-dev/klevdb"
@@ -40,17 +41,28 @@ var tapOnce sync.Once
 
 func installTap() {
 	tapOnce.Do(func() {
-		vhook.FS = func(op, path, path2 string, off, n int64) {
-			dir := path
-			if op != "dirsync" {
-				dir = filepath.Dir(path)
-			}
-			if v, ok := tapRuns.Load(dir); ok {
-				v.(*tapRec).event(op, path, path2, off, n)
-			}
-		}
+		vhook.FS = fsDispatch
 	})
 }
+
+// fsDispatch is the one callback behind vhook.FS: the file-system tap of the crash / power-loss checks and, for C08,
+// every file-system step as a pause point ("fs.<op>") of the goroutine that performs it.
+func fsDispatch(op, path, path2 string, off, n int64) {
+	dir := path
+	if op != "dirsync" {
+		dir = filepath.Dir(path)
+	}
+	if v, ok := tapRuns.Load(dir); ok {
+		v.(*tapRec).event(op, path, path2, off, n)
+	}
+	if pauseInstalled.Load() { // only in processes that hold goroutines at pause points (C08, C18)
+		if h, ok := pauseProcs.Load(curGoid()); ok {
+			h.(pauseHandler).Arrive("fs." + op)
+		}
+	}
+}
+
+var pauseInstalled atomic.Bool
 
 func snapDir(dir string) map[string][]byte {
 	m := map[string][]byte{}
@@ -143,6 +155,7 @@ type crashRunner struct {
 	nimg    int
 	torn    string // "all" | "classes"
 	depth2  bool
+	ploss2  bool // C06 depth 2: the power goes a second time, inside or right after the recovery (its own fsyncs matter too)
 	plossOn bool
 	crashOn bool
 }
@@ -383,7 +396,7 @@ func (c *crashRunner) observe(img image, dir string, o OptSpec, depth int, retry
 	o.Rollover = 1 << 30
 	opts := c.x.options(o)
 	var tap *tapRec
-	if depth == 1 && c.depth2 {
+	if depth == 1 && (c.depth2 || (c.ploss2 && img.ploss)) {
 		tap = newTap(dir, true)
 	}
 	var events []tapEvent
@@ -588,6 +601,35 @@ func (c *crashRunner) eval(img image) {
 	obs, events := c.observe(img, dir, c.opts[i], 1, retry)
 	c.emit(img, S, T, info, obs, 1, img.what)
 	// depth 2: a crash at every step of that recovery, recovered again
+	if c.ploss2 && img.ploss {
+		// second power loss: at every step of the recovery (the last one = after Open has returned, before anything is
+		// synced again) every file goes back to its fsynced length; what the first image held counts as durable
+		done := map[string]bool{}
+		for k, ev := range events {
+			f := cloneFiles(ev.Snap)
+			cut, sig := false, ""
+			for n, b := range f {
+				lo := ev.Synced[n]
+				if lo > 0 && lo < 8 {
+					lo = 0
+				}
+				if lo < int64(len(b)) {
+					f[n] = b[:lo]
+					cut = true
+				}
+				sig += fmt.Sprintf("%s:%d;", n, len(f[n]))
+			}
+			if !cut || done[sig] {
+				continue
+			}
+			done[sig] = true
+			img2 := image{files: f, opIdx: i, between: img.between, ploss: true, w: img.w}
+			obs2, _ := c.observe(img2, dir, c.opts[i], 2, retry)
+			c.emit(img2, S, T, info, obs2, 2, fmt.Sprintf("%s; then a second power loss inside the recovery after its step %d (%s %s %s): all files at their fsynced length", img.what, k, ev.Op, ev.Path, ev.Path2))
+			c.nimg++
+		}
+		return
+	}
 	for k, ev := range events {
 		img2 := image{files: ev.Snap, opIdx: i, between: img.between, ploss: img.ploss, w: img.w}
 		obs2, _ := c.observe(img2, dir, c.opts[i], 2, retry)
